@@ -125,6 +125,35 @@ type vnode struct {
 	mtime time.Time
 	uid   uint32
 	gid   uint32
+	// own: how the entry reports its owner to the server
+	//   0 not at all (Sys() is nothing the package knows)            -> no owner on the wire
+	//   1 through FileInfoUidGid, Sys() nil                            -> uid/gid
+	//   2 through FileInfoUidGid, AND Sys() is a *syscall.Stat_t with OTHER ids (a wrapper remapping the ids of a real
+	//     file): the ids of FileInfoUidGid are what the handler reports                                -> uid/gid
+	//   3 through Sys().(*syscall.Stat_t) only (what package os returns) -> uid/gid
+	own int
+}
+
+// vnodeUG is a vnode that implements FileInfoUidGid.
+type vnodeUG struct{ *vnode }
+
+func (n vnodeUG) Uid() uint32 { return n.uid }
+func (n vnodeUG) Gid() uint32 { return n.gid }
+
+// wireOwner: the owner the client must see for this entry, and whether the wire carries one at all.
+func (n *vnode) wireOwner() (uint32, uint32, bool) {
+	if n.own == 0 {
+		return 0, 0, false
+	}
+	return n.uid, n.gid, true
+}
+
+// asInfo returns the os.FileInfo handed to the server for this node, according to n.own.
+func (n *vnode) asInfo() os.FileInfo {
+	if n.own == 1 || n.own == 2 {
+		return vnodeUG{n}
+	}
+	return n
 }
 
 func (n *vnode) Name() string { return n.name }
@@ -141,18 +170,29 @@ func (n *vnode) Mode() os.FileMode {
 }
 func (n *vnode) ModTime() time.Time { return n.mtime }
 func (n *vnode) IsDir() bool        { return n.isDir }
-func (n *vnode) Sys() any           { return &FileStat{UID: n.uid, GID: n.gid} }
+func (n *vnode) Sys() any {
+	switch n.own {
+	case 1:
+		return nil
+	case 2:
+		return &syscall.Stat_t{Uid: n.uid + 7, Gid: n.gid + 7}
+	case 3:
+		return &syscall.Stat_t{Uid: n.uid, Gid: n.gid}
+	}
+	return &FileStat{UID: n.uid, GID: n.gid}
+}
 
 // snapshot copy (os.FileInfo handed to the server must not change afterwards)
 func (n *vnode) info(name string) os.FileInfo {
 	c := *n
 	c.name = name
 	c.data = make([]byte, len(n.data)) // only the size matters
-	return &c
+	return c.asInfo()
 }
 
 // vfs implements all handler interfaces; which optional ones are visible is decided by the wrapper types below.
 type vfs struct {
+	lastCtx       context.Context
 	failPartial   bool    // a scripted failure of ReadAt / ListAt (failAt) comes WITH data: (n > 0, err)
 	closeErrEvery int     // > 0: the Close method of every object whose id is a multiple of it returns an error (it still releases the object)
 	reenter       bool    // handler objects call the exported Request API (Context, WithContext) from inside their methods, as a real handler may
@@ -260,6 +300,20 @@ func (v *vfs) newObj(kind, p string, n *vnode, r *Request) *vobj {
 	v.objs = append(v.objs, o)
 	v.mu.Unlock()
 	return o
+}
+
+// ctxDoneSoon reports whether ctx is cancelled (it is cancelled before the reply to the request leaves; a short grace
+// period only covers scheduling).
+func ctxDoneSoon(ctx context.Context) bool {
+	if ctx == nil {
+		return true
+	}
+	select {
+	case <-ctx.Done():
+		return true
+	case <-time.After(300 * time.Millisecond):
+		return false
+	}
 }
 
 // objByTag returns the object the harness tagged with the given handle number (nil if none).
@@ -517,6 +571,7 @@ func (v *vfs) takeLog() []hcall {
 func (v *vfs) logReq(h string, r *Request) {
 	atomic.AddInt64(&v.calls, 1)
 	v.mu.Lock()
+	v.lastCtx = r.Context() // the context handed to the most recent handler call (checked for failed opens)
 	v.hlog = append(v.hlog, hcall{H: h, M: r.Method, Path: r.Filepath, Target: r.Target, Flags: r.Flags, PF: r.Pflags(), AF: r.AttrFlags(), Attrs: r.Attributes()})
 	v.mu.Unlock()
 	a := r.AttrFlags()
